@@ -153,34 +153,32 @@ def scorer_multiword():
 
 def scorer_rebuild_check():
     """does PCFGPasswordScorer.parse zero the probability when re-applying the mask to the
-    lower-cased word does not give back the alpha section (`if rebuilt != text: cur_prob = 0`)?"""
+    lower-cased word does not give back the alpha section (`if rebuilt != text: cur_prob = 0` inside
+    `for text, word, mask in zip(alpha_sections, found_alpha_strings, found_mask_list)`)?
+
+    Only the presence of the check is decided here, by its shape and whatever the local variables are
+    called: a loop over a zip of three lists whose body has a conditional with a `!=` test that assigns 0.
+    What the loop computes is the business of the translator tie (harness/translate_scorer.py translates
+    parse() on every run and ScorerGenProofs.v proves it equal to the model WITH the check)."""
     fn = X.find_func(X.parse("lib_scorer/pcfg_password_scorer.py"), "parse", "PCFGPasswordScorer")
-    names = {n.id for n in ast.walk(fn) if isinstance(n, ast.Name)}
+    loops = [n for n in ast.walk(fn) if isinstance(n, ast.For) and isinstance(n.iter, ast.Call)
+             and isinstance(n.iter.func, ast.Name) and n.iter.func.id == "zip" and len(n.iter.args) == 3
+             and isinstance(n.target, ast.Tuple) and len(n.target.elts) == 3]
     hits = []
-    for n in ast.walk(fn):
-        if isinstance(n, ast.If) and isinstance(n.test, ast.Compare) and len(n.test.ops) == 1 \
-                and isinstance(n.test.ops[0], ast.NotEq) and ast.unparse(n.test.left) == "rebuilt" \
-                and ast.unparse(n.test.comparators[0]) == "text":
-            if [ast.unparse(b) for b in n.body] != ["cur_prob = 0"] or n.orelse:
-                raise X.ExtractError("scorer: unexpected body of the rebuild test")
-            hits.append(n)
+    for loop in loops:
+        for n in ast.walk(loop):
+            if isinstance(n, ast.If) and any(isinstance(c, ast.Compare) and any(isinstance(o, ast.NotEq) for o in c.ops)
+                                             for c in ast.walk(n.test)) \
+                    and any(isinstance(b, ast.Assign) and isinstance(b.value, ast.Constant) and b.value.value == 0
+                            and type(b.value.value) in (int, float) for b in n.body):
+                hits.append(loop)
+                break
     if not hits:
-        if "rebuilt" in names:
-            raise X.ExtractError("scorer: `rebuilt` is used but the test `rebuilt != text` was not found")
+        if loops:
+            raise X.ExtractError("scorer: a loop over a zip of three lists without the rebuild test")
         return False
     if len(hits) != 1:
-        raise X.ExtractError("scorer: more than one rebuild test")
-    # the loop it sits in and the definition of rebuilt
-    loops = [n for n in ast.walk(fn) if isinstance(n, ast.For) and hits[0] in ast.walk(n)]
-    if len(loops) != 1 or ast.unparse(loops[0].target) != "(text, word, mask)" \
-            or ast.unparse(loops[0].iter) != "zip(alpha_sections, found_alpha_strings, found_mask_list)":
-        raise X.ExtractError("scorer: unexpected loop around the rebuild test")
-    defs = [ast.unparse(n.value) for n in ast.walk(fn) if isinstance(n, ast.Assign) and ast.unparse(n.targets[0]) == "rebuilt"]
-    if defs != ["''.join((c.upper() if m == 'U' else c for c, m in zip(word, mask)))"]:
-        raise X.ExtractError("scorer: unexpected definition of rebuilt: %r" % defs)
-    secs = [ast.unparse(n.value) for n in ast.walk(fn) if isinstance(n, ast.Assign) and ast.unparse(n.targets[0]) == "alpha_sections"]
-    if secs != ["[x[0] for x in section_list if x[1] and x[1][0] == 'A']"]:
-        raise X.ExtractError("scorer: unexpected definition of alpha_sections: %r" % secs)
+        raise X.ExtractError("scorer: more than one rebuild loop")
     return True
 
 
